@@ -107,10 +107,15 @@ class ResolverTask:
             res["status"], res["detail"] = "out-of-subset", str(e)
         except Exception as e:      # noqa
             res["status"], res["detail"] = "crash", "%s\n%s" % (e, traceback.format_exc())
-        if self.which == "resolve_fragment" and (res["status"] != "ok" or any(o["status"] != "discharged" for o in res["obligations"])):
+        if res["status"] != "ok" or any(o["status"] != "discharged" for o in res["obligations"]):
             from pyvc import driver
+            helper = "pyvc.rt_ptr" if self.which == "resolve_fragment" else "pyvc.rt_ref"
             try:
-                res["search"] = driver.rt_call("pyvc.rt_ptr", {"cmd": "search", "root": self.root, "limit": 3}, self.root, timeout=3000)
+                res["search"] = driver.rt_call(helper, {"cmd": "search", "root": self.root, "limit": 3}, self.root, timeout=3000)
+                if self.which != "resolve_fragment" and not res["search"].get("failures"):
+                    # fetch accounting / cache behaviour
+                    res["search"] = driver.rt_call("pyvc.rt_hist", {"cmd": "search", "root": self.root, "maxlen": 2, "limit": 3,
+                                                                     "configs": [[True, "default"], [False, "default"]]}, self.root, timeout=3000)
             except Exception as e:      # noqa
                 res["search"] = {"error": str(e)[-300:], "failures": []}
         res["wall_s"] = round(time.time() - t0, 3)
